@@ -12,7 +12,9 @@ P = Property('C11', 'proof',
              'cap+1 sweeps), the only exceptions that leave it are ValueError (ConvergenceError is one), NameError or another error of the '
              'user\'s expression - never a raw ZeroDivisionError / OverflowError / KeyError / IndexError / AssertionError - and on every '
              'exceptional exit no list or dict of the solver has been written (periods already solved intact, equal length). Rejections: '
-             'duplicate country / sector codes, "__" in local names, no / ambiguous supplier raise before any state is changed.',
+             'duplicate country / sector codes, "__" in local names, no / ambiguous supplier raise before any state is changed. Also verified here because '
+             'every other module relies on it: Equation.__init__ for a term list and the whole of Sector.AddVariable (defines exactly that variable as the '
+             'given blob, touches no other object) for identifier-shaped names.',
              'contract-based deductive verification: VCs generated from the real AST (pyvc), z3/cvc5',
              design_ref='DESIGN.md section 6, C11')
 P.trust('T-EVAL (see C02): the exceptions eval may raise are ZeroDivisionError, ValueError, OverflowError, NameError or another error',
